@@ -62,26 +62,9 @@ pub fn scenario(ctx: &mut Ctx) -> ScResult {
         ev!(ctx, "message {}B: {}", b.len(), d);
         msgs.push(b);
     }
-    if big > 0 {
-        // typed decoders handed raw attributes built directly (RawAttribute::new, not parsed from a
-        // message) whose value length collides with a length the decoder accepts modulo 2^16
-        use stun_types::attribute::{AttributeType, RawAttribute};
-        let (ty, lens) = KNOWN_TYPES[ctx.ch.below(KNOWN_TYPES.len() as u64) as usize];
-        let l = *ctx.ch.pick(lens) + 65_536;
-        if l <= 70_000 {
-            let value = ctx.ch.bytes(l);
-            // the constructor is not a decoding entry point: if the library refuses (or panics on) a
-            // value that has no wire representation, there is nothing to decode and nothing to report
-            let made = crate::core::guard(|| RawAttribute::new(AttributeType::new(ty), &value));
-            if let crate::core::Guarded::Ok(raw) = made {
-                ctx.st.inc("probe.raw_attribute_value_longer_than_64KiB");
-                if let Err(v) = crate::pipeline::typed_decoders(&raw, 1u128.into()) {
-                    ev!(ctx, "  !! {} [{}]: {}", v.clause, v.site, v.message);
-                    return Err(v);
-                }
-            }
-        }
-    }
+    // (A probe that handed the typed decoders hand-built raw attributes of more than 65 535 bytes
+    // was removed after the third review round: such an attribute has no wire form and cannot come
+    // out of any decoding entry point, so it is outside C01 as read here — DESIGN §14.2.)
     let w = faults::weights(if profile == "bigbuf" { "faults" } else { &profile });
     let cl = [creds.clone(), other.clone()];
     // one run in four: the receiver parses the whole batch before it inspects any message of it
